@@ -9,6 +9,7 @@ import FeatherModel.Lemmas.FramePositions
 import FeatherModel.Lemmas.FrameReadBackCode
 import FeatherModel.Lemmas.ClassWriteFullDecide
 import FeatherModel.Lemmas.ClassWriteFullNoPanic
+import FeatherModel.Lemmas.ArmsWriterModel
 
 /-!
 # C02 — the class writer emits a well-formed file denoting exactly the given class
@@ -817,30 +818,55 @@ write with duke / this model, identical bytes) on the javac corpus and on random
 
 The headline statement, at full strength, is
 
-    ∀ t bytes r, writeClass t = .ok bytes → ∃ raw, ClassRead.read (bytes ++ r) = .ok (raw, r) ∧ raw.resolve = some (factsOf t)
+    ∀ t bytes r, writeClass t = .ok bytes →
+      ∃ raw t', ClassRead.read (bytes ++ r) = .ok (raw, r) ∧ t.resolve = some t' ∧ raw.resolve = some t'
 
 — C01's reader model (`Thm.C01.class_read_encode_partial` makes it the reader of every JVMS-legal encoding) reads the
-written file back to exactly the facts of `t` and stops at its end.  It is proved below for the decidable fragment
+written file back to exactly the facts of `t` and stops at its end.  "The facts of `t`" are `t.resolve` (C01,
+`Model/ClassReadResolve.lean`): the class description with the opaque label ids of every method body read as the
+index of the instruction that carries them — the form in which two trees with differently numbered labels are
+compared; a class description without method bodies is its own resolved form (`class_write_read_no_code_partial` is the
+statement with `raw.resolve = some t`).  It is proved below for the decidable fragment
 `ClassWriteFull.InWriterFragment t` (hence `_partial`):
 
 * header, super types, interfaces; fields with `Deprecated Synthetic ConstantValue Signature
   Runtime(In)VisibleAnnotations Runtime(In)VisibleTypeAnnotations` + unknown attributes;
-  methods **without `Code`** with `Deprecated Synthetic Exceptions Signature Runtime(In)VisibleAnnotations
+  methods with `Deprecated Synthetic Code Exceptions Signature Runtime(In)VisibleAnnotations
   Runtime(In)VisibleTypeAnnotations AnnotationDefault MethodParameters` + unknown attributes;
+  **`Code`** (`ClassWriteFull.CodeOk`, `Lemmas/ClassWriteFullCode.lean`): every instruction kind except `invokedynamic`
+  and `ldc` of a `Dynamic` constant (so no `BootstrapMethods`) — constants, locals in all widths, all 16 conditional
+  branches, `goto`, `jsr`, `ret`, both switches, field / method / interface-method references, method handles and
+  method types, class operands — in a method body of **at most 32767 bytes by the syntactic bound** `maxSizeR` (the
+  longest form of every instruction: then no jump is widened and no conditional branch becomes an inverted-condition
+  trampoline, which the reader would read back as two instructions), with its `StackMapTable` (frames of all five
+  kinds on any instructions, `Object` types with valid class names, `Uninitialized` labels on instructions: the written
+  table is `Spec.encFrames` of a legal frame layout, `frames_write_is_spec_encoding`, and every frame comes back attached
+  to the instruction that carried it), with its exception table (`end_pc = code_length` allowed), `LineNumberTable`, `LocalVariableTable` / `LocalVariableTypeTable` (every
+  entry exactly one of descriptor / signature, descriptor entries first: the order in which the two tables are written
+  and read back), `Runtime(In)VisibleTypeAnnotations` with the targets `localvar` / `resource` / `catch` / `offset` /
+  `type_argument`, no unknown attributes (dropped by `write_code`, see the witness), fewer than 65535 label references;
   class attributes `Deprecated Synthetic InnerClasses EnclosingMethod Signature SourceFile SourceDebugExtension
-  Runtime(In)VisibleAnnotations Runtime(In)VisibleTypeAnnotations ModulePackages ModuleMainClass NestHost NestMembers
-  PermittedSubclasses` + unknown attributes; annotations with every element-value kind (`B C D F I J S Z s e c @ [`),
+  Runtime(In)VisibleAnnotations Runtime(In)VisibleTypeAnnotations Module ModulePackages ModuleMainClass NestHost
+  NestMembers PermittedSubclasses Record` + unknown attributes; `Record` components with `Signature
+  Runtime(In)VisibleAnnotations Runtime(In)VisibleTypeAnnotations` + unknown attributes; `Module` with its `requires`
+  (optional version), `exports` / `opens` (target modules), `uses`, `provides … with …` and their `Module` / `Package` /
+  `Class` constants; annotations with every element-value kind (`B C D F I J S Z s e c @ [`),
   nested up to the reader's limit of 255 levels, type annotations with every target the owner admits and any type path;
 * names valid where the reader validates them, access flags within the masks the tree can hold, unknown attributes not
   named like a known one (`ClassOk`), every constant and string of the pool the writer builds within its field
   (`PoolOkOf`: the operand ranges of duke's tree types);
-* not yet in the fragment (modelled and tied byte-exactly, no theorem): `Code` (hence `BootstrapMethods`), `Record`,
-  `Module`.
+* not yet in the fragment (modelled and tied byte-exactly, no read-back theorem): `invokedynamic` / `Dynamic` constants
+  (hence `BootstrapMethods`), method bodies beyond the 32767-byte bound (widened jumps: covered
+  for the code array alone by sections 1-4), unknown attributes of `Code`.
 
 Route: the bytes are `(layout).encode` for the `ClassRead.Spec.ClassLayout` the writer chooses (its pool, its indices,
 its attribute order: `class_write_layout_partial`), every index the writer used resolves **in the final pool** to the
 constant it was put for (`pool_index_stable`: put → get, then monotonicity under every later put, then the reader's
-table of the written pool image), so the layout is `Legal`; its facts are `t`; `Thm.C01.class_read_encode_partial`. -/
+table of the written pool image), so the layout is `Legal`; its facts are `t.resolve`; `Thm.C01.class_read_encode_partial`.
+For `Code`: the code array of the successful (first) attempt is `Spec.encInsns` of the layout with the writer's own form
+choices (`Lemmas/ClassWriteFullCodeInsn.lean`, `…CodeArray.lean`: per instruction, then chunk by chunk, positions =
+`codePos`), the tables are written from that label table (`…CodeTables.lean`), and `Code.resolve` is the relabelling
+the writer performs (`…CodeResolve.lean`). -/
 
 open ClassWriteFull in
 /-- an index at which the writer's pool holds an entry resolves, in the table C01's reader builds from the pool image of
@@ -863,15 +889,26 @@ open ClassWriteFull in
 layout that is legal and denotes exactly `t` -/
 theorem class_write_layout_partial (t : ClassRead.ClassFacts) (hfrag : InWriterFragment t) (bytes : Bytes)
     (hw : writeClass t = .ok bytes) :
-    ∃ c : ClassRead.Spec.ClassLayout, bytes = c.encode ∧ c.Legal ∧ c.facts = some t :=
+    ∃ c : ClassRead.Spec.ClassLayout, bytes = c.encode ∧ c.Legal ∧ ∃ t', t.resolve = some t' ∧ c.facts = some t' :=
   writeClass_layout t hfrag bytes hw
 
 open ClassWriteFull in
-/-- **written files are read back** (fragment: see the section header; full statement there) -/
+/-- **written files are read back** (fragment: see the section header; full statement there): the reader model reads
+the written file, stops at its end, and what it read denotes the same class as `t` — both with their labels resolved -/
 theorem class_write_read_partial (t : ClassRead.ClassFacts) (hfrag : InWriterFragment t) (bytes : Bytes)
     (hw : writeClass t = .ok bytes) (r : Bytes) :
-    ∃ raw, ClassRead.read (bytes ++ r) = .ok (raw, r) ∧ raw.resolve = some t :=
+    ∃ raw t', ClassRead.read (bytes ++ r) = .ok (raw, r) ∧ t.resolve = some t' ∧ raw.resolve = some t' :=
   writeClass_read t hfrag bytes hw r
+
+open ClassWriteFull in
+/-- the same for class descriptions without method bodies, which are their own resolved form: read back to exactly `t` -/
+theorem class_write_read_no_code_partial (t : ClassRead.ClassFacts) (hfrag : InWriterFragment t)
+    (hnc : ∀ m ∈ t.methods, m.code = none) (bytes : Bytes) (hw : writeClass t = .ok bytes) (r : Bytes) :
+    ∃ raw, ClassRead.read (bytes ++ r) = .ok (raw, r) ∧ raw.resolve = some t := by
+  obtain ⟨raw, t', h1, h2, h3⟩ := writeClass_read t hfrag bytes hw r
+  rw [resolve_no_code t hnc] at h2
+  cases h2
+  exact ⟨raw, h1, h3⟩
 
 /-- **`write` never panics** — for *every* class description (the whole tree type: `Code` with the retry loop and the
 `StackMapTable`, annotations of any nesting, type annotations, `Record`, `Module`, bootstrap methods, counts of any
@@ -909,6 +946,74 @@ def exampleTree : ClassRead.ClassFacts :=
 example : ClassWriteFull.InWriterFragment exampleTree := by decide +kernel
 example : (match ClassWriteFull.writeClass exampleTree with | .ok _ => true | .error _ => false) = true := by decide +kernel
 
+/-- non-vacuity, `Record`: a record class with two components — the first with `Signature`, a visible annotation with a
+nested element value, an invisible type annotation (target `field`, a type path) and an unknown attribute -/
+def exampleRecord : ClassRead.ClassFacts :=
+  { exampleTree with
+    access := 0x0031, name := [82],
+    super := some [106, 97, 118, 97, 47, 108, 97, 110, 103, 47, 82, 101, 99, 111, 114, 100], interfaces := [],
+    fields := [], methods := [],
+    recordComponents :=
+      [⟨[120], [73], some [84, 73, 59], [.mk [76, 65, 59] [([118], .arr [.const 73 1, .str [115]])]], [],
+         [], [⟨.field, [(3, 0)], .mk [76, 84, 59] []⟩], [⟨[88], [1, 2, 3]⟩]⟩,
+       ⟨[121], [74], none, [], [], [], [], []⟩] }
+
+example : ClassWriteFull.InWriterFragment exampleRecord := by decide +kernel
+example : (match ClassWriteFull.writeClass exampleRecord with | .ok _ => true | .error _ => false) = true := by decide +kernel
+
+/-- non-vacuity, `Module`: a `module-info` with a versioned and an unversioned `requires`, a qualified and an
+unqualified `exports`, an `opens`, a `uses` and a `provides … with …`, plus `ModulePackages` / `ModuleMainClass` -/
+def exampleModule : ClassRead.ClassFacts :=
+  { minor := 0, major := 61, access := 0x8000, name := [109, 111, 100, 117, 108, 101, 45, 105, 110, 102, 111],
+    super := none, interfaces := [], fields := [], methods := [],
+    deprecated := false, synthetic := false, innerClasses := none, enclosingMethod := none, signature := none,
+    sourceFile := some [109, 46, 106], sourceDebugExtension := none, rva := [], ria := [], rvta := [], rita := [],
+    module := some
+      { name := [109, 46, 97], flags := 0x0020, version := some [49, 46, 48],
+        requires := [⟨[106, 97, 118, 97, 46, 98, 97, 115, 101], 0x8000, some [49, 55]⟩, ⟨[109, 46, 98], 0x0020, none⟩],
+        exports := [⟨[112, 47, 97], 0, [[109, 46, 98], [109, 46, 99]]⟩, ⟨[112, 47, 98], 0x1000, []⟩],
+        opens := [⟨[112, 47, 97], 0, [[109, 46, 98]]⟩],
+        uses := [[112, 47, 83]],
+        provides := [⟨[112, 47, 83], [[112, 47, 97, 47, 73], [112, 47, 97, 47, 74]]⟩] },
+    modulePackages := some [[112, 47, 97], [112, 47, 98]], moduleMainClass := some [112, 47, 97, 47, 77],
+    nestHost := none, nestMembers := none, permittedSubclasses := none, recordComponents := [], attrs := [] }
+
+example : ClassWriteFull.InWriterFragment exampleModule := by decide +kernel
+example : (match ClassWriteFull.writeClass exampleModule with | .ok _ => true | .error _ => false) = true := by decide +kernel
+
+/-- non-vacuity, `Code`: a class with a constructor-like method whose body has a field access, an `ldc` of a string, a
+method call, a conditional branch and a `goto` (labels 2 and 3), an `iinc`, a protected range with a handler (labels
+1, 2, 4; the catch type `java/lang/Exception`), stack map frames on the branch target (`append [int]`), the handler
+(`same_locals_1_stack_item [Object java/lang/Exception]`) and the `goto` target (`full` with an `Uninitialized(label 1)`),
+a line table, a local variable with a descriptor and one with a signature (live to the end of the code: `last_label` 5) -/
+def exampleCode : ClassRead.ClassFacts :=
+  { exampleTree with
+    access := 0x0021, name := [67], interfaces := [], fields := [],
+    methods :=
+      [⟨0x0009, [109], [40, 73, 41, 86], false, false,
+         some
+           { maxStack := 2, maxLocals := 2,
+             insns :=
+               [⟨none, none, .field 0xb2 ⟨[83], [111, 117, 116], [76, 80, 59]⟩⟩,
+                ⟨none, none, .ldc (.str [104, 105])⟩,
+                ⟨none, none, .invokevirtual ⟨[80], [112], [40, 76, 83, 59, 41, 86]⟩⟩,
+                ⟨some 1, none, .load 0 0⟩,
+                ⟨none, none, .branch 0x99 2⟩,
+                ⟨none, none, .iinc 0 1⟩,
+                ⟨some 2, some (.append [.int]), .goto 3⟩,
+                ⟨some 4, some (.same1 (.object [106, 97, 118, 97, 47, 108, 97, 110, 103, 47, 69, 120, 99, 101, 112, 116, 105, 111, 110])),
+                  .store 4 1⟩,
+                ⟨some 3, some (.full [.int, .uninit 1] []), .simple 0xb1⟩],
+             exceptions := [⟨1, 2, 4, some [106, 97, 118, 97, 47, 108, 97, 110, 103, 47, 69, 120, 99, 101, 112, 116, 105, 111, 110]⟩],
+             lastLabel := some 5,
+             lines := some [(1, 10), (3, 12)],
+             locals := some [⟨1, 5, [120], some [73], none, 0⟩, ⟨4, 5, [101], none, some [84, 84, 59], 1⟩],
+             rvta := [], ritva := [], attrs := [] },
+         none, none, [], [], [], [], none, none, []⟩] }
+
+example : ClassWriteFull.InWriterFragment exampleCode := by decide +kernel
+example : (match ClassWriteFull.writeClass exampleCode with | .ok _ => true | .error _ => false) = true := by decide +kernel
+
 /-- `write_code` never looks at `Code.attributes`: whatever unknown attributes a method body carries, the same bytes are
 written — **the unknown attributes of `Code` are dropped** (the reader delivers them, `write_code` has no loop for them;
 witness on the real code: `oracle-cf-write-read full` on a class whose `Code` carries an attribute `Foo` answers
@@ -916,5 +1021,79 @@ witness on the real code: `oracle-cf-write-read full` on a class whose `Code` ca
 theorem code_unknown_attributes_dropped_witness (c : ClassRead.Code) (as : List ClassRead.Attr) (p : PoolWrite.Pool)
     (bs : List BootstrapWrite.Bsm) :
     ClassWriteFull.writeCode { c with attrs := as } p bs = ClassWriteFull.writeCode c p bs := rfl
+
+/-! ## ═══ generated tables: the translator tie for `write_code` (independent of any test generator) ═══
+
+`translate/insn_arms_to_lean.py` reads the `match &instruction.instruction` of `write_code`, `if_helper`,
+`write_verification_type_info` (`duke/src/simple_class_writer.rs`) and `PoolWrite::write` (`simple_class_writer/pool.rs`)
+before every build and writes the arms as data into `Gen/WriterArms.lean` (next to `Gen/ReaderArms.lean` and
+`Gen/Constants.lean`, see `Thm/C01.lean`). The theorems compare the generated writer table with the generated reader table,
+with the JVMS tables (`Spec/Opcodes.lean`) and with the hand-written writer model, over the WHOLE tables.
+Vocabulary: `Lemmas/ArmsWriterDefs.lean`, `Lemmas/ArmsDefs.lean`. -/
+
+section GeneratedTables
+
+open Arms JvmsTables
+
+/-- **The arms of `write_code` are exactly the inverse of the arms of `read_code`'s second loop.** Reader and writer are
+generated from the same `enum Instruction`; every opcode the reader turns into constructor `c` is one the writer's arm for
+`c` writes as the instruction's own opcode, with the same operand layout (widths and pool function where both sides are
+mechanical, the same switch kind, a `*load_<n>` index below the writer's limit); every constructor has an arm that writes
+something, and every opcode it writes is read back as that constructor; the same for the opcodes behind the `wide` prefix,
+and that prefix is the opcode of the reader's `wide` arm. -/
+theorem writer_arms_inverse_reader :
+    Gen.WriterArms.ctorNames = Gen.ReaderArms.ctorNames ∧
+    (∀ op c, op < 256 → (rArm op).ctor? = some c → op ∈ (wArm c).plain ∧ sameLayout (rArm op) (wArm c) = true) ∧
+    (∀ c, c < Gen.WriterArms.ctorNames.length → (wArm c).plain ≠ [] ∧ ∀ op ∈ (wArm c).plain, (rArm op).ctor? = some c) ∧
+    (∀ w c, w < 256 → (rWideArm w).ctor? = some c → (Gen.ReaderArms.wideOpcode, w) ∈ (wArm c).prefixed) ∧
+    (∀ c, c < Gen.WriterArms.ctorNames.length → ∀ pw ∈ (wArm c).prefixed,
+      pw.1 = Gen.ReaderArms.wideOpcode ∧ (rWideArm pw.2).ctor? = some c) :=
+  Arms.writer_arms_inverse_reader
+
+/-- the two small tag tables of the writer are the reader's: `write_verification_type_info` writes the tag and as many
+bytes as `read_verification_type_info` reads for the same variant; `PoolWrite::write` writes each `PoolEntry` variant under
+the tag `PoolRead::read` reads it from, with the same payload widths -/
+theorem writer_tag_arms_inverse_reader :
+    Gen.WriterArms.vtypeArms = Gen.ReaderArms.vtypeArms ∧
+    (Gen.WriterArms.poolArms.map fun a => (a.2.1, a.1, a.2.2.1.sum, a.2.2.2)) =
+      (Gen.ReaderArms.poolArms.map fun a => (a.1, a.2.1, a.2.2.1.sum, a.2.2.2.1)) :=
+  Arms.writer_tag_arms_inverse_reader
+
+/-- **The writer's arms are the JVMS instruction set** (`jvmsWriterCheck`, per constructor): the opcode is the one whose
+mnemonic (general form) is the constructor's name; operand widths add up to the JVMS operand count; `if_helper` is given
+the JVMS negation as opposite opcode; `goto_helper` the `_w` form with a 32-bit offset; the local-variable families compute
+exactly the `<t>load_<n>` / `<t>store_<n>` opcodes with index `n`, use the one-byte form and the JVMS `wide` prefix; `Ldc` /
+`IInc` / `Ret` write only forms of their own instruction; the trampoline jump is `goto_w`. -/
+theorem writer_arms_are_jvms (c : Nat) (hc : c < Gen.WriterArms.ctorNames.length) :
+    jvmsWriterCheck c (Gen.WriterArms.wDense.getD c (7, 0, 0, [])) = true ∧
+    mnemonic? Gen.WriterArms.trampolineOpcode = some (jstr "goto_w") :=
+  Arms.writer_arms_are_jvms c hc
+
+/-- **Whatever the hand-written writer model emits for an instruction starts the way the Rust arm for that instruction
+starts** — for every instruction value in `CwDomain`, every operand, position, label table, narrow or wide attempt: there
+is a constructor named like the instruction (`cwMnemonic`, up to case and underscores) whose arm in `write_code` writes
+the first byte as the instruction's own opcode, or writes the first two bytes as prefix and opcode, or (conditional branch
+with a wide offset) passes the first byte to `if_helper` as the opposite opcode and the jump three bytes on is
+`if_helper`'s trampoline opcode. -/
+theorem writer_arms_match_model (wd : Bool) (lbl : Nat → Option Nat) (p k : Nat) (ci : CodeWrite.Insn) (bytes : Bytes)
+    (u : List CodeWrite.Unwritten) (hd : CwDomain ci) (h : CodeWrite.encInsn wd lbl p k ci = .ok (bytes, u)) :
+    ∃ c, c < Gen.WriterArms.ctorNames.length ∧ squash (ctorName c) = squash (cwMnemonic ci) ∧
+      headOk (wArm c) Gen.WriterArms.trampolineOpcode bytes = true :=
+  Arms.encInsn_head wd lbl p k ci bytes u hd h
+
+/-- on the way from the reader model's instruction type to the writer model's (`putInsn`: constants become pool indices,
+labels become instruction indices) the instruction stays the same instruction and stays in the domain — so the chain
+reader arm → reader model → `putInsn` → writer model → writer arm → (`writer_arms_inverse_reader`) reader arm closes -/
+theorem put_insn_keeps_instruction (lab : Nat → Nat) (p p' : ClassWriteFull.Pool) (bs bs' : List ClassWriteFull.Bsm)
+    (i : ClassRead.Insn) (ci : CodeWrite.Insn) (hd : RdDomain i) (h : ClassWriteFull.putInsn lab p bs i = .ok (ci, p', bs')) :
+    cwMnemonic ci = insnMnemonic i ∧ CwDomain ci :=
+  Arms.putInsn_name lab p p' bs bs' i ci hd h
+
+/-- non-vacuity: `IAdd` is written as `0x60`; `ALoad` as `0x19`, `0x2a..0x2d` or behind `wide`; `IfEq` with opposite `ifne` -/
+example : (wArmNamed (jstr "IAdd"), wArmNamed (jstr "ALoad"), wArmNamed (jstr "IfEq")) =
+    (some (.unit 0x60), some (.local_ 4 0x15 2 0x1a 0xc4 0x19), some (.cond 0x99 0x9a)) ∧
+    (WArm.local_ 4 0x15 2 0x1a 0xc4 0x19).plain = [0x19, 0x2a, 0x2b, 0x2c, 0x2d] := by decide +kernel
+
+end GeneratedTables
 
 end Thm.C02
